@@ -4,7 +4,7 @@
 # change applied.      tools/trial.sh seeded/C03-b [--budget S] [--tier quick|thorough] C03 C04 ...
 # Appends the outcome to seeded/<id>/meta.json (checks_run).  Remove /var/tmp/trial when done (tools/trial.sh --clean).
 set -u
-T=/var/tmp/trial
+T=${TRIAL_DIR:-/var/tmp/trial}
 if [ "${1:-}" = "--clean" ]; then git -C /repo worktree remove --force $T/repo 2>/dev/null; rm -rf $T; git -C /repo worktree prune; exit 0; fi
 D="$(realpath "$1")"; ID="$(basename "$D")"; shift
 BUDGET=60; TIER=quick
